@@ -139,6 +139,15 @@ for hh in (None, True):
     sc = {"modules": [[{"id": 0, "objs": S.pair(k1["id"], k1)}]], "ksks": {"k1": ceremony.ksk_def(k1, hash_using_hsm=hh)},
           "schema": {i: {"publish": ["k1"], "sign": ["k1"], "revoke": []} for i in (1, 2)}, "request": rq}
     run("colliding-key-tags", sc, {"tag": ZTW[0]["tag"]})
+# the configured DS digest is a hexadecimal number: lower, upper or mixed case name the same key
+for alg in (8, 13):
+    for style in ("lower", "mixed"):
+        k1 = ksk_for(alg, idx=0)
+        kd = ceremony.ksk_def(k1)
+        kd["ds_sha256"] = kd["ds_sha256"].lower() if style == "lower" else "".join(c.lower() if i % 2 else c.upper() for i, c in enumerate(kd["ds_sha256"]))
+        rq = skrgen.honest_request(f"ds-{style}-{alg}", NOW, 1, [[zsk_for(alg, idx=0)]], ksrxml.default_zsk_policy(), sign=True)
+        run("configured-ds-letter-case", {"modules": [[{"id": 0, "objs": S.pair(k1["id"], k1)}]], "ksks": {"k1": kd}, "schema": {1: {"publish": ["k1"], "sign": ["k1"], "revoke": []}},
+                                          "request": rq}, {"alg": alg, "ds_sha256_written": style})
 # the configured TTL is what is signed, zero included
 for t_ in (0, 1):
     k1 = ksk_for(8, idx=0)
